@@ -286,9 +286,14 @@ impl TxPool {
         for entry in removed {
             let tx_hash = entry.transaction().hash();
             debug!("remove_expired {} timestamp({})", tx_hash, entry.timestamp);
-            self.pool_map.remove_entry(&entry.proposal_short_id());
-            let reject = Reject::Expiry(entry.timestamp);
-            callbacks.call_reject(self, &entry, reject);
+            // the descendants can not stay in the pool without this transaction
+            for removed_entry in self
+                .pool_map
+                .remove_entry_and_descendants(&entry.proposal_short_id())
+            {
+                let reject = Reject::Expiry(entry.timestamp);
+                callbacks.call_reject(self, &removed_entry, reject);
+            }
         }
     }
 
